@@ -202,6 +202,10 @@ class Ctx:
         self.notes = {}
         self.known = load_known(pid)
         self.checker_cmds = []
+        self._first_violation_at = None
+        self._finishing = False
+        if not replay:
+            self._start_watchdog()
 
     @staticmethod
     def _sweep_stale():
@@ -417,12 +421,39 @@ class Ctx:
         if any(v["sig"] == sig for v in self.violations):
             return True
         self.violations.append({"sig": sig, "what": what, "replay": replay_obj})
+        if self._first_violation_at is None:
+            self._first_violation_at = time.time()
         return True
+
+    # -- a decided check must also terminate: on a tree where (nearly) every case hangs or crashes the
+    #    remaining generation adds nothing to the verdict but can take hours.  Once a violation with its
+    #    replay has been recorded the run may go on for a grace period (more signatures, shrinking) and is
+    #    then finished from here.  Never triggers on a tree without violations.
+    def _start_watchdog(self):
+        import threading
+        grace = 150 if self.tier == "quick" else 600
+        def dog():
+            while True:
+                time.sleep(5)
+                t = self._first_violation_at
+                if t is not None and not self._finishing and time.time() - t > grace:
+                    self.notes["stopped_early"] = (f"generation stopped {grace} s after the first violation was "
+                                                   f"recorded ({len(self.violations)} signatures so far)")
+                    self.log(f"verdict is decided; stopping {grace} s after the first violation")
+                    try:
+                        self.finish()
+                    except SystemExit as e:
+                        sys.stdout.flush(); sys.stderr.flush()
+                        _kill_descendants()
+                        shutil.rmtree(self.tmp, ignore_errors=True)
+                        os._exit(e.code if isinstance(e.code, int) else 1)
+        threading.Thread(target=dog, daemon=True).start()
 
     def broken_correspondence(self, name, detail):
         self.broken.append(("correspondence", name, detail))
 
     def finish(self):
+        self._finishing = True
         wall = time.time() - self.t0
         rc = 0
         (VERIF / "replays").mkdir(exist_ok=True)
@@ -473,6 +504,29 @@ class Ctx:
                  f"distinct_nontrivial={cov['distinct_nontrivial']} wall={wall:.1f}s")
         shutil.rmtree(self.tmp, ignore_errors=True)
         sys.exit(rc)
+
+
+def _kill_descendants():
+    """SIGKILL every process below this one (harnesses of cases that hang)"""
+    import signal
+    kids = {}
+    for d in os.listdir("/proc"):
+        if d.isdigit():
+            try:
+                st = open(f"/proc/{d}/stat").read()
+                kids.setdefault(int(st[st.rindex(")") + 2:].split()[1]), []).append(int(d))
+            except (OSError, ValueError):
+                pass
+    todo, seen = [os.getpid()], set()
+    while todo:
+        for c in kids.get(todo.pop(), []):
+            if c not in seen:
+                seen.add(c); todo.append(c)
+    for c in seen:
+        try:
+            os.kill(c, signal.SIGKILL)
+        except OSError:
+            pass
 
 
 def safe(s):
